@@ -66,6 +66,36 @@ for fn, nm, path, sym in WCOPYFAM:
           functions=[sym], bound='extents <= 3 wide chars, arena <= 8, layout %d' % lay,
           stubs=['stubs/memset_model.c'], timeout=3000, mem_gb=10, tiers=('thorough',))
 
+# ---- the same family on the far side of the `dmax > 0x20` slack-nulling switch (memset instead of the loop)
+SLACK_PROPS = ['C08', 'C01', 'C03', 'C04', 'C06', 'C05']
+def slack_variants(sym, long, wide, sl):
+    # memset.0 = word loop, memset.1 = byte loop of stubs/memset_model.c (the wide functions only ever
+    # pass aligned multiples of 4: the byte loop is unreachable there, shown by its unwinding assertion)
+    ms = ['memset.0:43', 'memset.1:%d' % (1 if wide else 43)]
+    if not long:
+        us = ['%s.*:%d' % (sym, 2 * sl + 4)] + ms     # the library's scan loops need <= 2*SL+2 iterations
+        return [{'label': 'below', 'defines': ['DIR=0'], 'unwind': 52, 'unwindset': us},
+                {'label': 'above', 'defines': ['DIR=1'], 'unwind': 52, 'unwindset': us}]
+    us = ['%s.*:43' % sym] + ms
+    return [{'label': 'below.long', 'defines': ['DIR=0', 'LONGSRC'], 'unwind': 90, 'unwindset': us},
+            {'label': 'above.long', 'defines': ['DIR=1', 'LONGSRC'], 'unwind': 90, 'unwindset': us}]
+
+
+for fam, wide in ((COPYFAM, False), (WCOPYFAM, True)):
+    for fn, nm, path, sym in fam:
+        for long in (False, True):
+            sl = 1 if wide else 2
+            heavy = long and (wide or 'cat' in nm)
+            J('B.slack.%s%s' % (nm, '.long' if long else ''), SLACK_PROPS, 'B', 'harness/slackfam.c',
+              sources=[path] + (WCS_COMMON if wide else STR_COMMON),
+              defines=['FN=%d' % fn, 'SL=%d' % sl] + (['WIDE'] if wide else []), variants=slack_variants(sym, long, wide, sl), unwind=52, replay=True,
+              functions=[sym], stubs=['stubs/memset_model.c'], timeout=1800, mem_gb=(16 if heavy else 8),
+              quick_props=['C08', 'C01', 'C04'], tiers=(('thorough',) if heavy else ('quick', 'thorough')),
+              cbmc_flags=['--max-field-sensitivity-array-size', '100'],
+              bound='dest of %d elements, dmax %d..%d (beyond the 0x20 switch), %s, dest below / above src at fixed offsets; all contents symbolic'
+                    % (0x20 + 2 * sl + 4, 0x20 + 2 * sl + 2, 0x20 + 2 * sl + 4,
+                       'a source of as many non-zero elements that cannot fit (error path)' if long else 'strings <= %d elements, slen <= %d' % (sl, sl + 1)))
+
 # ---- C12 / C13: census of static-lifetime storage over all library translation units
 import census  # noqa: E402
 J('S.static_census', ['C12', 'C13'], 'C', 'lib/census.py', special=census.census_obligations,
